@@ -107,8 +107,12 @@ def make_case(rng, idx, tier):
         ln = rng.choice([ls['name'] for ls in layers])
         hook = rng.choice(['setUp', 'tearDown'])
         plan = {'layers': {ln: {hook: 'raise:' + rng.choice(EXCS)}}}
-    if rng.random() < 0.15:
-        ln = rng.choice([ls['name'] for ls in layers])
+    if rng.random() < 0.25:
+        # a layer that cannot be torn down - preferably one with bases, so
+        # that something is left to tear down after it
+        withb = [ls['name'] for ls in layers if ls.get('bases')]
+        ln = rng.choice(withb if withb and rng.random() < 0.7
+                        else [ls['name'] for ls in layers])
         plan.setdefault('layers', {}).setdefault(ln, {})['tearDown'] = 'nie'
     opts = {'verbose': rng.randint(0, 3)}
     if rng.random() < 0.5:
